@@ -56,17 +56,44 @@ def main():
     ap.add_argument("--seed", default="0")
     ap.add_argument("--wt", default=None, help="worktree holding changeN.diff / demoN.py (default /tmp/wt-<Cxx>)")
     ap.add_argument("--as-id", default=None, help="number to record the change under in seeded/ (default N)")
+    ap.add_argument("--from-seeded", action="store_true",
+                    help="re-evaluate seeded/<Cxx>-<N>: a scratch worktree of /repo HEAD is made under /var/tmp, used and removed")
     a = ap.parse_args()
-    wt = a.wt or "/tmp/wt-%s" % a.prop
+    made_wt = None
+    if a.from_seeded:
+        sd = os.path.join(VERIF, "seeded", "%s-%s" % (a.prop, a.n))
+        wt = made_wt = "/var/tmp/seedwt-%s-%s-%d" % (a.prop, a.n, os.getpid())
+        rc, out = sh(["git", "-C", "/repo", "worktree", "add", "-q", "--detach", wt, "HEAD"])
+        if rc != 0:
+            print("cannot create worktree:", out[-300:])
+            return 2
+        shutil.copyfile(os.path.join(sd, "patch.diff"), os.path.join(wt, "change%s.diff" % a.n))
+        shutil.copyfile(os.path.join(sd, "demo.py"), os.path.join(wt, "demo%s.py" % a.n))
+    else:
+        wt = a.wt or "/tmp/wt-%s" % a.prop
+    try:
+        return evaluate(a, wt)
+    finally:
+        if made_wt:
+            sh(["git", "-C", "/repo", "worktree", "remove", "--force", made_wt])
+            shutil.rmtree(made_wt, ignore_errors=True)
+
+
+def evaluate(a, wt):
     diff = os.path.join(wt, "change%s.diff" % a.n)
     demo = os.path.join(wt, "demo%s.py" % a.n)
     checks = (a.checks or a.prop).split(",")
     rec_id = a.as_id or a.n
-    meta = {"property": a.prop, "change": rec_id, "worktree": wt, "checks_run": checks, "tier": a.tier, "when": time.strftime("%Y-%m-%d %H:%M:%S")}
+    meta = {"property": a.prop, "change": rec_id, "worktree": "scratch worktree of /repo HEAD" if a.from_seeded else wt, "checks_run": checks, "tier": a.tier, "when": time.strftime("%Y-%m-%d %H:%M:%S")}
     sh("git checkout -- xdis", cwd=wt)
     rc0, out0 = sh("/venv/bin/python %s" % os.path.basename(demo), cwd=wt, timeout=1200)
     meta["demo_without_change_rc"] = rc0
     rc, out = sh("git apply %s" % diff, cwd=wt)
+    if rc != 0:
+        # the tree has moved on since the change was written (later fix: commits): let patch(1) place the hunks
+        sh("git checkout -- xdis", cwd=wt)
+        rc, out = sh("patch -p1 -F3 --no-backup-if-mismatch -i %s" % diff, cwd=wt)
+        meta["applied_with"] = "patch -F3"
     if rc != 0:
         meta["error"] = "patch does not apply: " + out[-300:]
         print(json.dumps(meta, indent=1))
@@ -100,8 +127,9 @@ def main():
         sh("git checkout -- xdis", cwd=wt)
     out_dir = os.path.join(VERIF, "seeded", "%s-%s" % (a.prop, rec_id))
     os.makedirs(out_dir, exist_ok=True)
-    shutil.copyfile(diff, os.path.join(out_dir, "patch.diff"))
-    shutil.copyfile(demo, os.path.join(out_dir, "demo.py"))
+    if not a.from_seeded:
+        shutil.copyfile(diff, os.path.join(out_dir, "patch.diff"))
+        shutil.copyfile(demo, os.path.join(out_dir, "demo.py"))
     sm = os.path.join(wt, "SEEDED.md")
     if os.path.exists(sm):
         shutil.copyfile(sm, os.path.join(out_dir, "AGENT-NOTES.md"))
